@@ -254,10 +254,11 @@ impl<S: Spec, IC: StackIc<S::Idx>> Sut for StackSut<S, IC> {
     fn merge(srcs: &[&Self]) -> Self {
         Self::wrap(FlatStack::merge_capacity(srcs.iter().map(|s| &s.s)))
     }
-    fn reserve_regions(&mut self, _srcs: &[&Self]) -> bool {
-        // FlatStack::reserve_regions takes regions, which a stack does not expose; covered by
-        // the bare-region instances.
-        false
+    fn reserve_regions(&mut self, srcs: &[&Self]) -> bool {
+        // FlatStack::reserve_regions takes bare regions, which a stack does not expose: scratch
+        // regions are rebuilt from the source stacks' items (push form 0 onto a default region).
+        let v: Vec<&FlatStack<S::R, IC>> = srcs.iter().map(|s| &s.s).collect();
+        S::stack_reserve_regions(&mut self.s, &v)
     }
     fn reserve_items(&mut self, vs: &[S::Val], form: usize) {
         S::stack_reserve_items(&mut self.s, vs, form)
